@@ -139,7 +139,28 @@ def run_one(ctx, n, keys, fam_in, fam_out):
     eval_case(ctx, n, keys, outputs, requested, opt, f"{fam_in}:{fam_out}")
 
 
+
+def _limit_blas_threads(n_threads=2):
+    """OpenBLAS threading does not speed these small tensor contractions up but occupies every core; cap it (best
+    effort, silently skipped when the bundled library or symbol is not found)."""
+    try:
+        import ctypes
+        import glob
+        import os
+        libdir = os.path.join(os.path.dirname(os.path.dirname(np.__file__)), "numpy.libs")
+        for path in glob.glob(os.path.join(libdir, "*openblas*")):
+            lib = ctypes.CDLL(path)
+            for name in ("scipy_openblas_set_num_threads64_", "openblas_set_num_threads64_",
+                         "scipy_openblas_set_num_threads", "openblas_set_num_threads"):
+                if hasattr(lib, name):
+                    getattr(lib, name)(int(n_threads))
+                    break
+    except Exception:
+        pass
+
+
 def evaluate(ctx, deep):
+    _limit_blas_threads()
     rng = ctx.rng
     nmax = 6 if deep else 5
     # exhaustive: every ordered selection of inputs for n = 2 (64 of them), and of up to 2 (3 deep) inputs for n = 3
